@@ -11,6 +11,7 @@ import (
 	"verif/h/corpus"
 	"verif/h/gen"
 	"verif/h/hx"
+	"verif/h/kf"
 	"verif/h/llvmx"
 	"verif/h/lx"
 	"verif/h/mut"
@@ -19,7 +20,16 @@ import (
 	"verif/h/walk"
 )
 
-func TestMain(m *testing.M) { hx.Main(m, "C02", nil) }
+var kfNamedI8 bool
+
+func TestMain(m *testing.M) {
+	hx.Main(m, "C02", func() {
+		kfNamedI8 = kf.Activate("KF-C02-named-i8-blockaddress", func(in string) bool {
+			class, _ := fixpoint(in)
+			return class == "not_structurally_identical"
+		})
+	})
+}
 
 // fixpoint runs the C02 oracle; class "" means it held.
 func fixpoint(x string) (class, msg string) {
@@ -172,7 +182,13 @@ func TestGenerated(t *testing.T) {
 		cfg.Off = map[string]bool{"retattr-align": true, "freeze-metadata": true} // inputs the parser cannot read are outside C02's domain
 		m, feats := gen.Module(rt, cfg)
 		gen.SparseMetadataIDs(rt, m)
-		x := m.TextNoisy(gen.DrawNoise(rt))
+		noise := gen.DrawNoiseWithAliases(rt)
+		if _, aliased := noise.TypeAlias["i8"]; aliased && kfNamedI8 && strings.Contains(m.Text(), "blockaddress(") {
+			// known finding: the named alias of i8 is not kept at blockaddress positions
+			delete(noise.TypeAlias, "i8")
+			kf.Hit("KF-C02-named-i8-blockaddress")
+		}
+		x := m.TextNoisy(noise)
 		hx.Eval(1)
 		validated++
 		if validated%10 == 0 {
